@@ -137,6 +137,30 @@ mod verif_c10 {
             }
         };
     }
+    // the comment path of skip_ws_to_eol: a blank, a '#', then two more characters (where the comment ends is what
+    // distinguishes the break kinds: LF, CR, CR LF, NUL, end of input)
+    #[kani::proof]
+    #[kani::unwind(9)]
+    fn c10_str_ws_eol_comment() {
+        let tail: [u8; 2] = kani::any();
+        kani::assume(ws_byte(tail[0]) || tail[0] == 0);
+        kani::assume(ws_byte(tail[1]) || tail[1] == 0);
+        let lead: u8 = if kani::any() { b' ' } else { b'\t' };
+        let buf: [u8; 4] = [lead, b'#', tail[0], tail[1]];
+        let n: usize = kani::any();
+        kani::assume(n >= 2 && n <= 4);
+        let s = match core::str::from_utf8(&buf[..n]) {
+            Ok(s) => s,
+            Err(_) => return,
+        };
+        let mut a = StrInput::new(s);
+        let mut d = D(StrInput::new(s));
+        let (na, ra) = a.skip_ws_to_eol(SkipTabs::Yes);
+        let (nd, rd) = d.skip_ws_to_eol(SkipTabs::Yes);
+        assert!(na == nd, "skip_ws_to_eol: different counts");
+        assert!(ra.is_ok() == rd.is_ok(), "skip_ws_to_eol: different verdicts");
+        assert!(same_rest(&a, &d), "skip_ws_to_eol: different remaining input");
+    }
     ws_diff!(c10_str_ws_eol_len2, c10_str_blank_len2, 2, 7);
     ws_diff!(c10_str_ws_eol_len3, c10_str_blank_len3, 3, 8);
     ws_diff!(c10_str_ws_eol_len4, c10_str_blank_len4, 4, 9);
